@@ -4,6 +4,7 @@ import sys
 import csv
 import math
 import tomllib
+from fractions import Fraction
 import logging
 import numpy as np
 import pandas as pd
@@ -59,8 +60,13 @@ def snap_command(input_workload, output_file, ticks_per_second, force=False):
         for row in reader:
             # Modify arrival_seconds if it's set (not empty)
             if row['arrival_seconds'].strip():
-                original = float(row['arrival_seconds'])
-                snapped = math.floor(original * ticks_per_second) / ticks_per_second
+                # exact decimal arithmetic: float products like 0.29 * 100
+                # fall just below the tick boundary they are on
+                ticks = Fraction(row['arrival_seconds'].strip()) * ticks_per_second
+                tick = math.floor(ticks)
+                if (tick + 1) - ticks < Fraction(1, 10**9):
+                    tick += 1  # within float noise of the next boundary
+                snapped = tick / ticks_per_second
                 row['arrival_seconds'] = snapped
 
             writer.writerow(row)
